@@ -765,8 +765,85 @@ func EdgeAlts(b *ssa.BasicBlock, i int) [][]Fact {
 }
 
 // CutEstablishing removes every If edge that establishes m: on that edge, in
-// every alternative, some known comparison makes m hold.
+// every alternative, some known comparison makes m hold.  It also understands
+// the search-then-use idiom: a variable that starts at a sentinel (a negative
+// index, false) and is only given another value where m holds; an edge on
+// which the variable is known to have left its sentinel then establishes m.
 func CutEstablishing(m EdgeMatcher) EdgeCut {
+	plain := func(b *ssa.BasicBlock, i int) bool { return AltsEstablish(EdgeAlts(b, i), m) }
+	memo := map[*ssa.Phi]int{} // 1 in progress / ok, 2 no
+	var reach *Reach
+	var sentinelOK func(p *ssa.Phi) bool
+	sentinelOK = func(p *ssa.Phi) bool {
+		if st, ok := memo[p]; ok {
+			return st == 1
+		}
+		memo[p] = 1
+		nSent, nLive := 0, 0
+		for k, e := range p.Edges {
+			if isSentinelConst(e) {
+				nSent++
+				continue
+			}
+			if q, ok := e.(*ssa.Phi); ok && hasSentinelEdge(q) {
+				if !sentinelOK(q) {
+					memo[p] = 2
+					return false
+				}
+				continue
+			}
+			nLive++
+			pred := p.Block().Preds[k]
+			idx := -1
+			for si, sc := range pred.Succs {
+				if sc == p.Block() {
+					idx = si
+				}
+			}
+			if idx >= 0 && plain(pred, idx) {
+				continue
+			}
+			if reach == nil {
+				reach = ReachEntry(p.Parent(), nil, plain)
+			}
+			if len(pred.Instrs) > 0 && !reach.Has(pred.Instrs[len(pred.Instrs)-1]) {
+				continue
+			}
+			memo[p] = 2
+			return false
+		}
+		if nSent == 0 || nLive == 0 {
+			// not a sentinel variable (or one that never leaves it): say nothing
+			if nSent == 0 {
+				memo[p] = 2
+				return false
+			}
+		}
+		return true
+	}
+	notSentinel := func(f Fact) bool {
+		for _, side := range []ssa.Value{f.Cmp.X, f.Cmp.Y} {
+			if side == nil {
+				continue
+			}
+			p, ok := StripConv(side).(*ssa.Phi)
+			if !ok {
+				continue
+			}
+			isP := func(v ssa.Value) bool { return v != nil && StripConv(v) == ssa.Value(p) }
+			left := false
+			for _, mm := range []EdgeMatcher{LowerBound0(isP), IsTrue(isP), Ne(isP, isSentinelConst)} {
+				t, fl := mm(f.Cmp)
+				if (f.Holds && t) || (!f.Holds && fl) {
+					left = true
+				}
+			}
+			if left && sentinelOK(p) {
+				return true
+			}
+		}
+		return false
+	}
 	return func(b *ssa.BasicBlock, i int) bool {
 		alts := EdgeAlts(b, i)
 		if len(alts) == 0 {
@@ -776,7 +853,7 @@ func CutEstablishing(m EdgeMatcher) EdgeCut {
 			ok := false
 			for _, f := range alt {
 				t, fl := m(f.Cmp)
-				if (f.Holds && t) || (!f.Holds && fl) {
+				if (f.Holds && t) || (!f.Holds && fl) || notSentinel(f) {
 					ok = true
 					break
 				}
@@ -787,6 +864,29 @@ func CutEstablishing(m EdgeMatcher) EdgeCut {
 		}
 		return true
 	}
+}
+
+func hasSentinelEdge(p *ssa.Phi) bool {
+	for _, e := range p.Edges {
+		if isSentinelConst(e) {
+			return true
+		}
+	}
+	return false
+}
+
+// isSentinelConst: a negative integer constant or the constant false.
+func isSentinelConst(v ssa.Value) bool {
+	if v == nil {
+		return false
+	}
+	if k, ok := ConstInt(v); ok {
+		return k < 0
+	}
+	if b, ok := ConstBool(v); ok {
+		return !b
+	}
+	return false
 }
 
 // Point is a program point: before instruction I of block B.
